@@ -241,15 +241,28 @@ func main() {
 		var cases []*History
 		for _, h := range corpus(stream) {
 			cases = append(cases, h)
-			st.Extra["corpus-cases"]++
 		}
 		for i := 0; i < n; i++ {
 			h := generate(stream, r.Fork())
 			h.Seed, h.Case = seed, i
 			cases = append(cases, h)
 		}
-		for _, h := range cases {
+		// E2E_SHARD=i/n: play only every n-th case (corpus and generated alike), starting with the i-th; the checks run
+		// the n shards of one stream side by side (a case is mostly waiting for quiescence)
+		shard, shards := 0, 1
+		if v := os.Getenv("E2E_SHARD"); v != "" {
+			if _, err := fmt.Sscanf(v, "%d/%d", &shard, &shards); err != nil || shards < 1 || shard < 0 || shard >= shards {
+				usage()
+			}
+		}
+		for k, h := range cases {
+			if k%shards != shard {
+				continue
+			}
 			h := h
+			if h.Corpus != "" {
+				st.Extra["corpus-cases"]++
+			}
 			res := executeGuarded(h, st, func() {
 				out.Line(line(h, result{Clause: "harness-timeout", Detail: map[string]any{"where": "case did not return within " + caseLimit.String()}}))
 				b, _ := json.Marshal(st)
